@@ -39,6 +39,16 @@ example : (canonicalSplit (K := ℚ) ⟨⟨0, 0, 2⟩, ⟨14 / 5, 4 / 5, 3⟩⟩
     (fun r => decide (r.1.maxs.x = 1) && decide (r.2.mins.x = 1) && decide (r.1.mins.x = 0) && decide (r.2.maxs.x = 14 / 5)) = some true := by
   decide +kernel
 
+/-- the hypotheses of `cutLoop_agrees` / `splitDatasetCutting_agrees` are satisfiable and the loop really cuts: one plank
+`[0, 14/5]` registered as leaf 0, plane `x = 1`: two records (leaf 0 keeps the negative piece, the fresh leaf 1 gets the
+positive piece) and the builder's `aabbs` hold exactly these two boxes -/
+example : (cutLoop (K := ℚ) 0 0 0 1 1 0
+      (#[0], #[⟨MAXN, 0, 0⟩], #[⟨⟨0, 0, 2⟩, ⟨14 / 5, 4 / 5, 3⟩⟩], 1, [])).map
+    (fun r => decide (r.1.toList = [0, 1]) && decide (r.2.2.2.1 = 2) && decide (r.2.2.2.2.length = 2) &&
+      (r.2.2.1.toList.map fun b => (decide (b.mins.x = 0) && decide (b.maxs.x = 1)) || (decide (b.mins.x = 1) && decide (b.maxs.x = 14 / 5))).all id) =
+    some true := by
+  decide +kernel
+
 end examples
 
 end C08
